@@ -12,7 +12,7 @@ import (
 )
 
 // ValidOps is the operation alphabet of C09 / C18 (ValidReplayer).
-var ValidOps = []string{"Put{a}", "Put{b}", "Put(no topics)", "GC()", "Advance(1 tick)", "Advance(TTL)", "Put{a}x5", "Put{a}x9"}
+var ValidOps = []string{"Put{a}", "Put{b}", "Put(no topics)", "GC()", "Advance(1 tick)", "Advance(TTL)", "Put{a}x5", "Put{a}x9", "Replay(oldest unexpired ID, {a,b})"}
 
 type ValidCfg struct {
 	TTL  int // in ticks; one tick is one second
@@ -20,6 +20,14 @@ type ValidCfg struct {
 	Auto bool
 	// MaxAdvances / MaxMacros bound the histories.
 	MaxAdvances, MaxMacros int
+	// Shape: deduplicate states by the shape abstraction (message identity dropped, instants relative to the
+	// clock, past instants merged) instead of the concrete state. Every visited state is still checked on the
+	// real code; only the decision not to expand a state again rests on the abstraction.
+	Shape bool
+	// Ops, if set, restricts the alphabet to these operations (indices into ValidOps); MaxHeld bounds the
+	// number of events the replayer may be holding (accepted and not yet certainly collected).
+	Ops     []int
+	MaxHeld int
 }
 
 const tick = int64(time.Second)
@@ -53,7 +61,7 @@ func VisitValid(c ValidCfg, hist []uint8, which string, probes *int64) (uint64, 
 	adv, macros := 0, 0
 	collected := false // a collection ran in the last transition
 	desc := func() string {
-		return fmt.Sprintf("ValidReplayer(TTL=%ds, GCInterval=%v, autoIDs=%v) after [%s] (now=%.2fs)", c.TTL, gcInterval, c.Auto, strings.Join(opNames(ValidOps, hist), ", "), float64(now)/float64(tick))
+		return fmt.Sprintf("ValidReplayer(TTL=%ds, GCInterval=%v, autoIDs=%v) after [%s] (now=%.2fs)", c.TTL, gcInterval, c.Auto, strings.Join(opNames(ValidOps, c.mapOps(hist)), ", "), float64(now)/float64(tick))
 	}
 	put := func(topics []string, last bool) string {
 		in := mkMsg(attempt, !c.Auto)
@@ -83,10 +91,15 @@ func VisitValid(c ValidCfg, hist []uint8, which string, probes *int64) (uint64, 
 		all = append(all, entry{id: id, topics: topics, exp: now + int64(ttl)})
 		return ""
 	}
+	held := 0 // upper bound of what the replayer may still hold
 	for k, op := range hist {
 		last := k == len(hist)-1
 		collected = false
 		var v string
+		if c.Ops != nil {
+			op = uint8(c.Ops[op])
+		}
+		before := len(all)
 		switch op {
 		case 0:
 			v = put([]string{"a"}, last)
@@ -106,6 +119,16 @@ func VisitValid(c ValidCfg, hist []uint8, which string, probes *int64) (uint64, 
 		case 5:
 			now += int64(ttl)
 			adv++
+		case 8:
+			w := &probeWriter{}
+			sub := sse.Subscription{Client: w, Topics: []string{"a", "b"}}
+			for _, e := range all {
+				if e.exp > now {
+					sub.LastEventID = sse.ID(e.id)
+					break
+				}
+			}
+			_ = r.Replay(sub)
 		case 6, 7:
 			macros++
 			n := 5
@@ -126,12 +149,42 @@ func VisitValid(c ValidCfg, hist []uint8, which string, probes *int64) (uint64, 
 		if v != "" {
 			return 0, true, v
 		}
+		held += len(all) - before
+		if collected {
+			held = 0
+			for _, e := range all {
+				if e.exp > now {
+					held++
+				}
+			}
+		}
 	}
-	if adv > c.MaxAdvances || macros > c.MaxMacros {
+	if adv > c.MaxAdvances || macros > c.MaxMacros || (c.MaxHeld > 0 && held > c.MaxHeld) {
 		return 0, false, ""
 	}
 	stateHash := deep.Hash(r)
 	key := stateHash ^ hashModel(all, uint64(now)) ^ uint64(t0)*0x9e3779b97f4a7c15
+	if c.Shape {
+		key = deep.ShapeHash(r, deep.Shape{Now: vbase.Add(time.Duration(now))})
+		// reference model, same abstraction: per live entry its topics and the time left; plus how long ago
+		// the last Put/GC was (saturating at the interval)
+		for _, e := range all {
+			if e.exp > now {
+				key = key*1099511628211 ^ uint64(e.exp-now)*31 ^ uint64(e.topics[0][0])
+			}
+		}
+		since := int64(-1)
+		if t0set {
+			since = now - t0
+			if gcInterval > 0 && since > int64(gcInterval) {
+				since = int64(gcInterval)
+			}
+			if gcInterval <= 0 {
+				since = 0
+			}
+		}
+		key = key*1099511628211 ^ uint64(since)
+	}
 
 	// reachability
 	reach := map[string]bool{}
@@ -263,4 +316,15 @@ func VisitValid(c ValidCfg, hist []uint8, which string, probes *int64) (uint64, 
 	}
 	// (Replay is allowed to reorganise private state, e.g. collect: only what it sends is specified.)
 	return key, true, ""
+}
+
+func (c ValidCfg) mapOps(h []uint8) []uint8 {
+	if c.Ops == nil {
+		return h
+	}
+	out := make([]uint8, len(h))
+	for i, o := range h {
+		out[i] = uint8(c.Ops[o])
+	}
+	return out
 }
